@@ -222,6 +222,7 @@ def run_shard(ctx, shard):
         acc.count("entries_read", len(sub))
         acc.count("absent_probes", len(NAMES) - len(sub) + len(EXTRA_ABSENT))
         acc.count("archives_with_%d_dex" % min(ndex, 3))
+        acc.count("archives:%s:%s" % (m, c))
         res = judge(case)
         for key, msg in res:
             acc.violation(key, {"sub": list(sub), "method": m, "content": c, "full": False}, msg)
@@ -244,6 +245,12 @@ def replay(ctx, w):
 def finalize(ctx, acc):
     if len(acc.outcomes) < 100:
         acc.harness_error("vacuous: only %d distinct (dex count, look-alikes, method, content) classes" % len(acc.outcomes))
+    nsub = sum(1 for _ in subsets(5 if ctx.thorough else 4))
+    for m in METHODS:
+        for c in CONTENTS:
+            if acc.extra.get("archives:%s:%s" % (m, c)) != nsub:
+                acc.harness_error("method x content combination %s/%s: %r archives judged, %d name sets in the space"
+                                  % (m, c, acc.extra.get("archives:%s:%s" % (m, c)), nsub))
     for k in ("archives_with_0_dex", "archives_with_1_dex", "archives_with_2_dex", "archives_with_3_dex"):
         if not acc.extra.get(k):
             acc.harness_error("vacuous: no case in class %s" % k)
